@@ -12,7 +12,7 @@ EXPLANATION = (
     'replica holds nothing, and merge skips remote deletes on, and it is a strict `ts < cut-off` test, with the purge keeping a '
     'tombstone exactly when the predicate is false and every tombstone taken out being kept or reported; P3 the cut-off is a MIN over all per-source maps (zero stamp for a missing '
     'source) minus the constant FORGIVENESS_PERIOD (3600 s in the shipped configuration) with a saturating subtraction; '
-    'P5 every mutator keeps the live map and the tombstone map exclusive (a new stamp is stored in one only after the key left the other), so a purge can never hand a live key to storage; P4 actor side (re-add on failed purge, keys = purge result) is C02.O3. NOT decided: the cluster-level equivalence of '
+    'P5 every mutator keeps the live map and the tombstone map exclusive (a new stamp is stored in one only after the key left the other), so a purge can never hand a live key to storage; P4 actor side: the purge handler, interpreted against every answer of storage (handlers_abs; C02.O3 as fallback): storage is asked inside the handler to remove exactly the purged tombstones and the set forgets exactly the ones storage removed. NOT decided: the cluster-level equivalence of '
     'purging and non-purging runs.')
 # P3 also: the cut-off table has a single writer (the cut-off computation)
 ASSUMPTIONS = ['operations reach every replica within the forgiveness period (property precondition)']
@@ -66,6 +66,21 @@ def check(ctx):
     sem_merge = orswot_abs.check_merge(ctx, facts, 'C08.SEM')
     sem_mut = orswot_abs.check_mutators(ctx, facts, 'C08.SEM')
     sem_diff = orswot_abs.check_diff(ctx, facts, 'C08.SEM')
+    # ---- P4: the actor side of a purge (storage is asked to remove exactly the purged tombstones, inside the handler, and the set
+    # forgets exactly the ones storage removed) — the handler summaries of C02 (handlers_abs), structural C02.O3 as fallback
+    import handlers_abs
+    n0 = len(ctx.obs)
+    if not handlers_abs.check_handlers(ctx, facts, 'C08.P4'):
+        import c02 as _c02h
+        _c02h.check(ctx)
+        keep = []
+        for o in ctx.obs[n0:]:
+            if o.rule in ('C02.O3', 'C02.ANCHORS'):
+                o.rule = 'C08.P4'
+                keep.append(o)
+        ctx.obs[n0:] = keep
+    else:
+        ctx.obs[n0:] = [o for o in ctx.obs[n0:] if o.key.startswith('purge|')]
     # ---- P1 -------------------------------------------------------------------
     eff = {} if sem_purge else self_field_effects(facts, cg, purge)
     touched = sorted(names[f] if isinstance(f, int) and f < len(names) else str(f) for f in eff)
